@@ -467,11 +467,41 @@ class MayRaise:
                 continue
             todo.extend(ast.iter_child_nodes(n))
 
+    def _names_methods(self, n: ast.Call) -> bool:
+        """getattr(self, NAME) where every value NAME can take (a constant, or the strings of the module-level table it is drawn
+        from - see Resolver._dispatch_names) ... is restricted to names that are methods of the class: cannot raise AttributeError.
+        Only names that look like identifiers of methods are considered; a table holding other strings fails the test."""
+        f = self._f
+        if not (f.cls and isinstance(n.args[0], ast.Name) and n.args[0].id == self._selfname):
+            return False
+        par = self.repo.parent(n)
+        if not (isinstance(par, ast.Call) and par.func is n):
+            return False  # only the dispatch idiom getattr(self, name)(...)
+        names = self.res._dispatch_names(f, n.args[1])
+        if not names:
+            return False
+        arg = n.args[1]
+        if isinstance(arg, ast.Name):
+            # the variable must be the second component of the table's rows: every row (tuple) of the table names a method in one position
+            meths = {m.name for m in self.repo.methods(f.module, f.cls)}
+            return self._table_column_is_methods(f, arg.id, meths)
+        return all(self.repo.funcs.get(f"{f.module}.{f.cls}.{x}") is not None for x in names)
+
+    def _table_column_is_methods(self, f, var: str, meths: set) -> bool:
+        for node in walk_no_nested(f.node):
+            if isinstance(node, ast.For) and isinstance(node.target, (ast.Tuple, ast.List)):
+                pos = [i for i, t in enumerate(node.target.elts) if isinstance(t, ast.Name) and t.id == var]
+                if len(pos) == 1 and isinstance(node.iter, ast.Name):
+                    v = self.eng.const_of(f.module, node.iter)
+                    if isinstance(v, (tuple, list)) and v and all(isinstance(r, (tuple, list)) and len(r) == len(node.target.elts) and r[pos[0]] in meths for r in v):
+                        return True
+        return False
+
     def _call(self, n: ast.Call) -> set[Raise]:
         out = set()
         fname = norm(n.func)
         short = fname.split(".")[-1]
-        if fname == "getattr" and len(n.args) == 2:
+        if fname == "getattr" and len(n.args) == 2 and not self._names_methods(n):
             out.add(self._mk("AttributeError", n, f"{norm(n)[:60]} without default"))
         if fname in CALL_RAISES:
             # int()/float() of an int-typed arithmetic expression cannot raise
